@@ -25,9 +25,11 @@ TRUSTED_BASE = [
     "translator tools/gen_schema.py: spowtd/schema.sql as parsed by SQLite itself (PRAGMA table_info / index_list / "
     "foreign_key_list; CHECK clauses and view bodies cut from the stored CREATE text) -> lean/SchemaTie/Generated.lean; "
     "the declarations the proofs assume are re-checked by `rfl` on every run (SchemaTie/Curves.lean)",
+    "translator tools/gen_formulas.py: the arithmetic of the named source functions (an expression, or a whole body of assignments, if and return) as Python's own `ast` parses it -> Lean terms over the carrier class in lean/FormulaTie/Gen*.lean; that each is the model's definition is re-checked by `rfl` / a short unfolding on every run (lean/FormulaTie/*.lean)",
 ]
 SCHEMA_TIE = ('Curves',)
 SQL_TIE = ('zeta_grid', 'rise', 'recession')
+FORMULA_TIE = ('Grid', 'Regrid')
 ASSUMPTIONS = [
     "grid coverage is decided in floating point by the tool (floor(min/step), ceil(max/step)); the oracle skips levels "
     "whose k*step lies within 1e-9 of min or max",
